@@ -102,7 +102,7 @@ def _compare(what, got, x, ok, nd, window, case, rec=None, scaled=True):
             req(False, "%s: float32 input cell %d (x=%r): result %r outside the interval [%g, %g] implied by single-precision logs %s" % (
                 what, k, float(x[k]), float(g[k]), lo[k], hi[k], desc), what.split(" ")[0] + " float32 outside interval")
         return None
-    tau = refs.spi_tie_width(idx, ref["alpha"])
+    tau = refs.spi_tie_width(idx, ref["alpha"], ref.get("alpha_rel_tol"))
     if scaled:
         r = np.rint(idx)
         d = g - r
@@ -144,7 +144,7 @@ def sub_fit(case):
         lo, hi = refs.gamma_alpha(s + delta), refs.gamma_alpha(s - delta)
         req(a != 0 and lo * (1 - 1e-6) <= a <= hi * (1 + 1e-6), "gammafit(float32): alpha %r outside [%r, %r]" % (a, lo, hi), "gammafit float32")
         return None
-    tol = 1e-9 + 8e-15 * ar
+    tol = refs.gamma_alpha_rel_tol(pos.astype(np.float64), s)
     req(a != 0, "gammafit found no root (returned 0) where the MLE alpha is %r (s=%r, n=%d)" % (ar, s, pos.size), "gammafit no root")
     req(abs(a - ar) <= tol * ar and abs(b - br) <= 2 * tol * br,
         "gammafit: (alpha, beta) = (%r, %r), SciPy MLE (%r, %r) (s=%r, %d positives)" % (a, b, ar, br, s, pos.size), "gammafit differs from MLE")
